@@ -7,14 +7,14 @@ queries while a flush is in progress; results that the program sorts / reverses 
   cold - the same history on an identical fresh database with every cache (process level: decompiled trees, extractors, lambda texts, adapted / parsed raw SQL; database
          level: translators, constructed SQL; session level: query results) emptied before EACH statement.
 The two traces of observations must be equal. Emptying a cache is always allowed (they are caches), so the cold run is the oracle."""
-import itertools, random, types
+import itertools, random, types, datetime, decimal
 from vf.verify import Case
 from pony import orm
 from pony.orm import core, asttranslation, decompiling
 from pony.utils import utils as putils
 
-BOUND_Q = 'one model (Item with query-running hooks, Tag); all histories of <= 2 statements and triples around 12 core statements, out of 40 statement kinds'
-BOUND_T = 'all histories of <= 3 statements out of 40 statement kinds'
+BOUND_Q = 'one model (Item with query-running hooks, Tag); all histories of <= 2 statements and triples around 12 core statements, out of 58 statement kinds'
+BOUND_T = 'all histories of <= 3 statements out of 58 statement kinds'
 
 
 def build():
@@ -25,6 +25,7 @@ def build():
         p = orm.Required(int)
         pos = orm.Optional(int)
         seen = orm.Optional(str)
+        ts = orm.Optional(datetime.datetime)
         tags = orm.Set('Tag')
         def before_insert(self):
             self.pos = Item.select().count()                       # a query run by a hook, while the flush is in progress
@@ -37,7 +38,7 @@ def build():
     db.generate_mapping(create_tables=True)
     with orm.db_session:
         t = [Tag(label='t%d' % i) for i in range(2)]
-        for i in range(5): Item(name='n%d' % i, p=i, tags=t[:i % 3])
+        for i in range(5): Item(name='n%d' % i, p=i, tags=t[:i % 3], ts=datetime.datetime(2020, 1, 1 + i, 12))
     return types.SimpleNamespace(db=db, Item=Item, Tag=Tag)
 
 
@@ -55,6 +56,10 @@ def _limit(Item, n): return list(orm.select(i.p for i in Item).order_by(1)[:n])
 def _raw(M, a): return sorted(M.db.select('name from Item where p > $a'))
 def _raw_obj(M, a): return sorted(i.name for i in M.Item.select_by_sql('select * from Item where p < $a'))
 def _rawfrag(Item, a): return sorted(orm.select(i.name for i in Item if orm.raw_sql('i.p = $a')))
+def _rawfrag_ts(Item, v): return sorted(orm.select(i.name for i in Item if orm.raw_sql('i.ts = $v')))          # ONE fragment text, parameters of several Python types
+def _rawfrag_ge(Item, v): return sorted(orm.select(i.name for i in Item if orm.raw_sql('i.ts >= $v')))
+def _rawfilter_ts(Item, v): return sorted(i.name for i in Item.select().filter(orm.raw_sql('i.ts = $v')))
+def _rawresult(Item, k): return sorted(orm.select(orm.raw_sql('i.p + $k') for i in Item))
 
 S = {}
 def st(name):
@@ -99,6 +104,15 @@ st('raw_sql_3')(lambda M: _raw(M, 3))
 st('select_by_sql')(lambda M: _raw_obj(M, 2))
 st('raw_fragment_1')(lambda M: _rawfrag(M.Item, 1))
 st('raw_fragment_4')(lambda M: _rawfrag(M.Item, 4))
+st('raw_fragment_decimal')(lambda M: _rawfrag(M.Item, decimal.Decimal('1')))
+st('raw_fragment_ts_text')(lambda M: _rawfrag_ts(M.Item, '2020-01-02 12:00:00.000000'))
+st('raw_fragment_ts_datetime')(lambda M: _rawfrag_ts(M.Item, datetime.datetime(2020, 1, 2, 12)))
+st('raw_fragment_ge_date')(lambda M: _rawfrag_ge(M.Item, datetime.date(2020, 1, 3)))
+st('raw_fragment_ge_datetime')(lambda M: _rawfrag_ge(M.Item, datetime.datetime(2020, 1, 3, 12)))
+st('raw_filter_ts_text')(lambda M: _rawfilter_ts(M.Item, '2020-01-03 12:00:00.000000'))
+st('raw_filter_ts_datetime')(lambda M: _rawfilter_ts(M.Item, datetime.datetime(2020, 1, 3, 12)))
+st('raw_result_int')(lambda M: _rawresult(M.Item, 1))
+st('raw_result_float')(lambda M: _rawresult(M.Item, 0.5))
 st('collection')(lambda M: sorted((t.label, sorted(i.name for i in t.items)) for t in M.Tag.select()))
 st('collection_query')(lambda M: sorted(orm.select((t.label, orm.count(t.items)) for t in M.Tag)))
 # modifications
@@ -114,7 +128,7 @@ st('rollback')(lambda M: orm.rollback())
 
 QUERIES = [n for n in S if n not in ('add', 'add_and_flush', 'rename', 'change_p', 'delete', 'untag', 'flush', 'commit', 'rollback')]
 MODS = [n for n in S if n not in QUERIES]
-CORE = ['names', 'count', 'select_lambda', 'filter_lambda', 'param_1', 'ordered', 'ordered_then_reverse_in_place', 'add', 'rename', 'flush', 'commit', 'raw_sql_1']
+CORE = ['names', 'count', 'select_lambda', 'filter_lambda', 'param_1', 'ordered', 'ordered_then_reverse_in_place', 'add', 'rename', 'flush', 'commit', 'raw_sql_1', 'raw_fragment_ts_datetime']
 
 
 def histories(tier):
